@@ -68,7 +68,6 @@ package node
 //@ axiom trim-noop: forall x String :: {trimspace(x)} !startsWithSpace(x) && !endsWithSpace(x) ==> trimspace(x) == x
 //@ lemma node-text-is-trimmed(t String, i String) using trim-noop: validType(t) && validID(i) ==> trimspace(nodeText(t, i)) == nodeText(t, i)
 //@ lemma node-text-splits(t String, i String) using : validType(t) && !str_contains(t, "<") && validID(i) ==> acceptsTyped(nodeText(t, i)) && nodeTypePart(nodeText(t, i)) == t && nodeIDPart(nodeText(t, i)) == i
-//@ lemma node-roundtrip(t String, i String) using node-text-is-trimmed node-text-splits: validType(t) && !str_contains(t, "<") && validID(i) ==> acceptsTyped(trimspace(nodeText(t, i))) && nodeTypePart(trimspace(nodeText(t, i))) == t && nodeIDPart(trimspace(nodeText(t, i))) == i
 // Without the restriction on the type the statement fails (known finding: NewType accepts a type that
 // contains '<', which Parse then splits at the wrong place).
 //@ lemma node-text-splits-any-type(t String, i String) using : validType(t) && validID(i) ==> acceptsTyped(nodeText(t, i)) && nodeTypePart(nodeText(t, i)) == t && nodeIDPart(nodeText(t, i)) == i
